@@ -93,7 +93,7 @@ def _child(workdir: str, runs: int, seed: int, seeded: bool, max_time: int = 0) 
             (wd / "stats.json").write_text(json.dumps(state))
 
     atheris.Setup([sys.argv[0], str(corpus), f"-runs={runs}", f"-seed={seed or 1}", f"-max_len={MAX_LEN}",
-                   "-timeout=60", "-rss_limit_mb=0", "-print_final_stats=0", "-verbosity=0"]
+                   "-timeout=60", f"-artifact_prefix={wd}/", "-rss_limit_mb=0", "-print_final_stats=0", "-verbosity=0"]
                   + ([f"-max_total_time={max_time}"] if max_time else []), one)
     (wd / "stats.json").write_text(json.dumps(state))
     atheris.Fuzz()
